@@ -62,7 +62,8 @@ RULE = ('systems: max_grad = 100*k Hz/m in [1e5, 3e6], max_slew chosen so that r
         '`fooled` (directed search with a binary64 two-ramp feasibility table for areas on which exhaustive-then-doubling+bisection '
         'misses the least feasible duration), `onestep` (long ramp near the slew limit + one-raster-step ramp), thorough: '
         'systematic scan of the cross family over every duration between the end of the linear range and five times it. All numbers '
-        'are short decimals handed to the implementation as the nearest double and to the model exactly. A boundary stream (one end '
+        'are short decimals handed to the implementation as the nearest double and to the model exactly. One case in five (and four corpus cases) goes through the library-default-system path: the system is installed with '
+        'Opts.set_as_default() (after a decoy default), the `system` argument is omitted, the previous default is restored. A boundary stream (one end '
         'between 99% and 100.5% of max_grad) is correspondence-only. Oracle = exact Fractions on the returned event. distinct = '
         'distinct argument tuples; non-trivial = returned duration beyond the lower search bound (a real search happened)')
 TRUSTED = ['binary64 arithmetic of NumPy/Python (products, ceil, round, comparisons with eps) is outside the model: sampled by '
@@ -434,6 +435,13 @@ def corpus(tier='quick'):
     for gs, ge, A in (('0', '0', '13/10'), ('-500000', '850000', '-4/5'), ('-380000', '-380000', '-6')):
         cs.append({'kind': 'corpus', 'rel': 'raster-6.4us', 'MG': '1277300', 'MS': '4257600000', 'R': '64/10000000',
                    'gs': gs, 'ge': ge, 'A': A})
+    # library default system: set_as_default(other scanner) + omitted `system` (other raster, weaker / stronger limits)
+    for MGd, MSd, Rd, gs, ge, A in (('425700', '8515200000', '1/100000', '0', '0', '3'),
+                                    ('2554500', '6386400000', '64/10000000', '0', '0', '120'),
+                                    ('851500', '2128800000', '1/50000', '-300000', '500000', '40'),
+                                    ('3400000', '12000000000', '1/250000', '1000000', '-2000000', '-25')):
+        cs.append({'kind': 'corpus', 'rel': 'library-default-system', 'MG': MGd, 'MS': MSd, 'R': Rd, 'gs': gs, 'ge': ge,
+                   'A': A, 'dflt': True})
     # both ends negative with different magnitudes, small negative area
     for gs, ge, A in (('-842985', '-1601671', '-180'), ('-1601671', '-842985', '-180'), ('-842985', '-1601671', '-60')):
         cs.append({'kind': 'corpus', 'rel': 'both-negative', 'MG': '1703000', 'MS': '7237920000', 'R': '1/100000',
@@ -475,6 +483,7 @@ def impl_run(c, want_closure=True, arbitrary=False):
             elif event == 'return':
                 probes.append((int(frame.f_locals.get('duration', -1)), arg))
     res = {'probes': probes, 'closure': None}
+    old_default = None
 
     def on_alarm(signum, frame):
         raise TimeoutError('make_extended_trapezoid_area did not return within %d s' % IMPL_TIMEOUT)
@@ -482,8 +491,19 @@ def impl_run(c, want_closure=True, arbitrary=False):
     signal.setitimer(signal.ITIMER_REAL, IMPL_TIMEOUT)
     sys.setprofile(prof if want_closure else None)
     try:
-        g, tt, w = make_extended_trapezoid_area(area=float(A), channel='x', grad_start=float(gs), grad_end=float(ge),
-                                                system=system, convert_to_arbitrary=arbitrary)
+        if c.get('dflt'):
+            # LIBRARY DEFAULT SYSTEM: the case's system is installed with set_as_default() (after a decoy with very different
+            # limits and raster was the default for a moment) and the `system` argument is OMITTED; the call must behave
+            # exactly like passing that system explicitly.  The previous default is restored in the finally below.
+            old_default = pp.Opts.default
+            pp.Opts(max_grad=123400.0, grad_unit='Hz/m', max_slew=2.5e8, slew_unit='Hz/m/s',
+                    grad_raster_time=50e-6).set_as_default()
+            system.set_as_default()
+            g, tt, w = make_extended_trapezoid_area(area=float(A), channel='x', grad_start=float(gs), grad_end=float(ge),
+                                                    convert_to_arbitrary=arbitrary)
+        else:
+            g, tt, w = make_extended_trapezoid_area(area=float(A), channel='x', grad_start=float(gs), grad_end=float(ge),
+                                                    system=system, convert_to_arbitrary=arbitrary)
         if arbitrary:
             res['shape_dur'] = float(g.shape_dur)
         res.update(cls='OK', tt=[float(v) for v in tt], wave=[float(v) for v in w], area=float(g.area),
@@ -500,6 +520,8 @@ def impl_run(c, want_closure=True, arbitrary=False):
         res['msg'] = repr(e)[:200]
     finally:
         sys.setprofile(None)
+        if old_default is not None:
+            old_default.set_as_default()
         signal.setitimer(signal.ITIMER_REAL, 0)
         signal.signal(signal.SIGALRM, old_handler)
     res['closure'] = box.get('fs')
@@ -873,6 +895,7 @@ def process(ctx, c, rng, n_find):
     ctx.count('stream.' + c['kind'])
     ctx.count('ends.' + c['rel'])
     ctx.count('domain.' + ('in' if dom else 'out'))
+    ctx.count('system.' + ('library_default_omitted' if c.get('dflt') else 'explicit'))
     ctx.count('class.' + res['cls'])
     ctx.count('raster_us.%g' % float(R * 10 ** 6))
     nontrivial = False
@@ -891,7 +914,7 @@ def process(ctx, c, rng, n_find):
             ctx.count('phase.' + ('binary' if binary else 'linear'))
         if dom and ok and Di <= 14 and rng.random() < 0.3:
             ctx.count('info.shorter_three_segment_%s' % ('exists' if three_segment_shorter(c, Di) else 'none'))
-    ctx.evaluated(('c12', c['MG'], c['MS'], c['R'], c['gs'], c['ge'], c['A']), nontrivial=nontrivial)
+    ctx.evaluated(('c12', c['MG'], c['MS'], c['R'], c['gs'], c['ge'], c['A'], bool(c.get('dflt'))), nontrivial=nontrivial)
     # the raster-sampled form (convert_to_arbitrary=True) of the same call
     do_arb = dom and ok and res['cls'] == 'OK' and D <= 400 and \
         (c['kind'] in ('onestep', 'corpus') or min(res_ramps(res, R)) == 1 or rng.random() < 0.2)
@@ -949,6 +972,7 @@ def run(ctx):
     n_one = {'quick': 20, 'thorough': 800}[ctx.tier]
     n_bound = {'quick': 15, 'thorough': 500}[ctx.tier]
     zrng = ctx.rng('fooled')
+    drng = ctx.rng('default-system')
     n_fooled = {'quick': 20, 'thorough': 1500}[ctx.tier]
     # cases are generated lazily, in a shuffled order of families (neither the time budget nor the cost of the directed
     # generator may starve a family)
@@ -964,6 +988,8 @@ def run(ctx):
             ctx.notes.append('time budget reached after %d cases' % i)
             break
         c = mk()
+        if c['kind'] != 'corpus' and drng.random() < 0.2:
+            c = dict(c, dflt=True)          # one case in five goes through the library-default-system path
         res, ok = process(ctx, c, frng, n_find=2)
         if i % 97 == 40 and res['cls'] == 'OK':
             ctx.sample({'case': c, 'tt': res['tt'], 'waveform': res['wave'], 'probed_durations': [d for d, _ in res['probes']][:30]})
